@@ -188,7 +188,7 @@ HWS = ["", "", "", " ", "\t", "  "]
 # "surrounding whitespace" is what str.strip()/str.isspace() call whitespace: a few non-ASCII / control blanks are included
 WS_ANY = ["", "", " ", " ", "\n", "\n  ", "  \n\t", "\r\n", "\n\n", "", " ", "\n", "\xa0", "\u3000 ", " \x0b", "\x0c\n", "\x85", "\u2028"]
 WS_SMALL = ["", "", " ", "\n", "\t", "", " ", "\xa0", "\u3000", "\x0c"]
-IDENTS = ["s", "jan", "t", "S", "acm", "x_1", "abc", "Xy"]
+IDENTS = ["s", "jan", "t", "S", "acm", "x_1", "abc", "Xy", "j-cacm", "pub:ACM"]
 NUMBERS = ["1", "2000", "007", "42", "0"]
 FKEYS = ["title", "author", "year", "Title", "x-y", "a_b", "month", "note", "a", "b", "c", "d", "e"]
 ETYPES = ["article", "Article", "BOOK", "misc", "inproceedings", "a", "x_1", "strin", "comm", "Préface", "ſtring", "ﬆring", "ſtrings"]
